@@ -88,7 +88,13 @@ func VerifH06aSNILookup() {
 			verifrt.Assume(zzKey(cfgs[i].Hostname) != zzKey(cfgs[j].Hostname))
 		}
 	}
+	// the operator may have designated a default server name (-default-sni): it stands in for an
+	// absent SNI only, a name the client did send is looked up as sent
 	certmagic.Default.DefaultServerName = ""
+	if verifrt.Bool("default-sni-set") {
+		certmagic.Default.DefaultServerName = cfgs[0].Hostname
+	}
+	defer func() { certmagic.Default.DefaultServerName = "" }()
 	tc, err := MakeTLSConfig(cfgs)
 	if err != nil || tc == nil {
 		verifrt.Fail("make-tls-config")
